@@ -54,6 +54,42 @@ type Check struct {
 	MemMB      int               `json:"mem_mb"`     // ulimit -v per shard (0 = default 8192)
 	ExtraDirs  map[string]string `json:"extra_dirs"` // additional harness dir -> repo pkg dir injections
 	Env        []string          `json:"env"`
+	Model      *struct {
+		Spec string `json:"spec"` // TLA+ module (relative to /verif)
+		Cfg  string `json:"cfg"`
+	} `json:"model"`
+}
+
+// runTLC model-checks the TLA+ spec with TLC and dumps its labelled state graph;
+// the harness validates every implementation transition against that graph.
+func runTLC(c *Check, work string) (string, string, error) {
+	dir := filepath.Join(work, "tlc")
+	os.MkdirAll(dir, 0o755)
+	spec := filepath.Base(c.Model.Spec)
+	for _, f := range []string{c.Model.Spec, c.Model.Cfg} {
+		b, err := os.ReadFile(filepath.Join(verifRoot, f))
+		if err != nil {
+			return "", "", err
+		}
+		os.WriteFile(filepath.Join(dir, filepath.Base(f)), b, 0o644)
+	}
+	dot := filepath.Join(dir, "graph.dot")
+	cmd := exec.Command("tlc", "-workers", "4", "-dump", "dot,actionlabels", dot, "-config", filepath.Base(c.Model.Cfg), spec)
+	cmd.Dir = dir
+	var out bytes.Buffer
+	cmd.Stdout, cmd.Stderr = &out, &out
+	err := cmd.Run()
+	o := out.String()
+	if err != nil || !strings.Contains(o, "Model checking completed. No error has been found.") {
+		return "", o, fmt.Errorf("TLC did not verify the model: %v\n%s", err, tail(o, 3000))
+	}
+	summary := ""
+	for _, l := range strings.Split(o, "\n") {
+		if strings.Contains(l, "distinct states found") {
+			summary = strings.TrimSpace(l)
+		}
+	}
+	return dot, summary, nil
 }
 
 type Finding struct {
@@ -509,6 +545,16 @@ func runCheck(c *Check, tier, replay string, keep bool, shardsOverride int) int 
 		return 2
 	}
 	buildS := time.Since(t0).Seconds()
+	tlcSummary := ""
+	if c.Model != nil {
+		dot, sum, err := runTLC(c, work)
+		if err != nil {
+			fmt.Fprintf(os.Stderr, "HARNESS-ERROR property=%s: %v\n", c.ID, err)
+			return 2
+		}
+		tlcSummary = sum
+		c.Env = append(c.Env, "VERIF_MODEL_DOT="+dot)
+	}
 	budget := c.BudgetQ
 	if budget == 0 {
 		budget = 240
@@ -757,6 +803,9 @@ func runCheck(c *Check, tier, replay string, keep bool, shardsOverride int) int 
 		cov["states"] = merged.States
 		cov["transitions"] = merged.Transitions
 		cov["traces_validated_against_impl"] = merged.Traces
+	}
+	if tlcSummary != "" {
+		cov["tlc"] = tlcSummary
 	}
 	for k, v := range merged.Extra {
 		if _, clash := cov[k]; !clash {
